@@ -59,7 +59,8 @@ def compare(ctx, tr, toks, text, fn, res, wit, api='glob.glob'):
 
     must = {key(p) for p, v in exp.items() if v is True}
     may = {key(p) for p, v in exp.items()}
-    got = {key(p) for p in res}
+    # nothing is asserted about paths beyond the reference walker's depth horizon
+    got = {key(p) for p in res if len(T.norm_result(p).split('/')) < w.maxdepth - 2}
     ctx.evals()
     ctx.count('walker_comparisons')
     ctx.count('must_paths', len(must))
